@@ -76,8 +76,8 @@ POOLS = [
 SAT_BY_TYPE = {
     "approval": ["Cardinality_Sat", "Cost_Sat", "CC_Sat", "Relative_Cardinality_Sat", "Effort_Sat", "Cost_Sqrt_Sat",
                  "Relative_Cost_Approx_Normaliser_Sat"],
-    "cardinal": ["Additive_Cardinal_Sat"],
-    "cumulative": ["Additive_Cardinal_Sat"],
+    "cardinal": ["Additive_Cardinal_Sat", "CC_Sat"],
+    "cumulative": ["Additive_Cardinal_Sat", "CC_Sat"],
     "ordinal": ["Additive_Borda_Sat"],
 }
 INSTANCE_DEPENDENT = ["Relative_Cardinality_Sat", "Relative_Cost_Approx_Normaliser_Sat"]
@@ -201,7 +201,8 @@ def gen(rng, i, tier):
         if btype in ("cardinal", "cumulative"):
             k = rng.randrange(0, n + 1) if n else 0
             ps = sorted(rng.sample(range(n), k)) if n else []
-            sp = [0, 1, 1, 2, 3, "1/2", "5/3"] if btype == "cardinal" else [0, 1, 2, 3, 5]
+            # negative and mixed-sign scores: satisfactions below 0 (Gini raises by design, "positive" means > 0)
+            sp = [0, 1, 1, 2, 3, "1/2", "5/3", -1, -2, "-1/2"] if btype == "cardinal" else [0, 1, 2, 3, 5, -1, -3]
             return {str(p): pb.qs(rng.choice(sp)) for p in ps}
         k = rng.randrange(0, n + 1) if n else 0
         return rng.sample(range(n), k) if n else []
@@ -215,6 +216,40 @@ def gen(rng, i, tier):
     multi = rng.random() < 0.5
     order = list(range(n))
     rng.shuffle(order)
+    # history stream: the statistics are computed, the SAME profile object is changed in place, and they are computed
+    # again with the same objects; "ballots" are the voters of the FINAL profile
+    history = None
+    if rng.random() < 0.35:
+        initial = [dict(b) if isinstance(b, dict) else list(b) for b in ballots]
+        cur, ops = list(initial), []
+        for _ in range(rng.randrange(1, 4)):
+            if multi:
+                kind = rng.choice(["append", "inc", "setmul", "del"] if cur else ["append", "inc"])
+                if kind == "append":
+                    op = ["append", rng.choice(cur) if cur and rng.random() < 0.5 else one_ballot()]
+                elif kind == "inc":
+                    op = ["inc", rng.choice(cur) if cur and rng.random() < 0.7 else one_ballot(), rng.randrange(1, 3)]
+                elif kind == "setmul":
+                    op = ["setmul", rng.choice(cur), rng.randrange(1, 4)]
+                else:
+                    op = ["del", rng.choice(cur)]
+            else:
+                kind = rng.choice(["append", "extend", "insert", "delete", "pop", "replace"] if cur
+                                  else ["append", "extend"])
+                if kind == "append":
+                    op = ["append", one_ballot()]
+                elif kind == "extend":
+                    op = ["extend", [one_ballot(), rng.choice(cur) if cur else one_ballot()]]
+                elif kind == "insert":
+                    op = ["insert", rng.randrange(0, len(cur) + 1), one_ballot()]
+                elif kind in ("delete", "pop"):
+                    op = [kind, rng.randrange(0, len(cur))]
+                else:
+                    op = ["replace", rng.randrange(0, len(cur)), one_ballot()]
+            ops.append(op)
+            cur = simulate(cur, [op], multi)
+        history = {"initial": initial, "ops": ops}
+        ballots = cur
 
     # outcomes
     feas = _feasible_allocs(costs, b) if n <= 6 else [[]]
@@ -283,7 +318,7 @@ def gen(rng, i, tier):
         giniq.append(gv)
     return {"btype": btype, "costs": [pb.qs(c) for c in costs], "budget": pb.qs(b), "order": order,
             "ballots": ballots, "multi": multi, "ask": ask, "satq": satq, "cats": cats,
-            "meanq": meanq, "giniq": giniq, "big": big, "bind": bind, "bind_budget": bind_budget,
+            "meanq": meanq, "giniq": giniq, "big": big, "history": history, "bind": bind, "bind_budget": bind_budget,
             # numeric type of costs/budget and of the arguments of the direct helper calls: the library's own
             # (int when integral, else mpq) or fractions.Fraction
             "ctype": rng.choice(["auto", "auto", "fraction"]), "numtype": rng.choice(["auto", "fraction"])}
@@ -309,6 +344,72 @@ def _canon_case_ballot(btype, b):
 
 def _F(x):
     return pb.F(core.qj(x))
+
+
+def _same(a, b):
+    return _keyb(a) == _keyb(b)
+
+
+def simulate(ballots, ops, multi):
+    """the voters after the in-place operations (list semantics for a Profile, multiset semantics for a MultiProfile)"""
+    cur = [dict(b) if isinstance(b, dict) else list(b) for b in ballots]
+    for op in ops:
+        if op[0] == "append":
+            cur.append(op[1])
+        elif op[0] == "extend":
+            cur.extend(op[1])
+        elif op[0] == "insert":
+            cur.insert(op[1], op[2])
+        elif op[0] in ("delete", "pop"):
+            del cur[op[1]]
+        elif op[0] == "replace":
+            cur[op[1]] = op[2]
+        elif op[0] == "setmul":          # multiprofile[ballot] = m  (m >= 1)
+            cur = [b for b in cur if not _same(b, op[1])] + [op[1]] * op[2]
+        elif op[0] == "inc":             # multiprofile[ballot] += d
+            cur = cur + [op[1]] * op[2]
+        elif op[0] == "del":             # del multiprofile[ballot]
+            cur = [b for b in cur if not _same(b, op[1])]
+        else:
+            raise ValueError(op)
+    return cur
+
+
+def _apply_ops(btype, projs, prof, ops, multi):
+    from pabutools.election import ApprovalBallot, CardinalBallot, CumulativeBallot, OrdinalBallot
+
+    def mk(b):
+        if btype == "approval":
+            x = ApprovalBallot([projs[i] for i in b])
+        elif btype == "cardinal":
+            x = CardinalBallot({projs[int(k)]: pb.num(v) for k, v in b.items()})
+        elif btype == "cumulative":
+            x = CumulativeBallot({projs[int(k)]: pb.num(v) for k, v in b.items()})
+        else:
+            x = OrdinalBallot([projs[i] for i in b])
+        return x.frozen() if multi else x
+
+    for op in ops:
+        if op[0] == "append":
+            prof.append(mk(op[1]))
+        elif op[0] == "extend":
+            prof.extend([mk(b) for b in op[1]])
+        elif op[0] == "insert":
+            prof.insert(op[1], mk(op[2]))
+        elif op[0] == "delete":
+            del prof[op[1]]
+        elif op[0] == "pop":
+            prof.pop(op[1])
+        elif op[0] == "replace":
+            prof[op[1]] = mk(op[2])
+        elif op[0] == "setmul":
+            prof[mk(op[1])] = op[2]
+        elif op[0] == "inc":
+            prof[mk(op[1])] += op[2]
+        elif op[0] == "del":
+            del prof[mk(op[1])]
+        else:
+            raise ValueError(op)
 
 
 def impl(case):
@@ -361,9 +462,10 @@ def impl(case):
             p.categories = {names[k] for k in cs}
     from pabutools.election import Instance, Project
     bind = case.get("bind", "same")
-    refprof = pb.make_profile(btype, inst, projs, case["ballots"], False)   # reference: bound to the passed instance
+    hist_ops = case.get("history")
+    start_ballots = hist_ops["initial"] if hist_ops else case["ballots"]
     if bind == "same":
-        listprof = refprof
+        listprof = pb.make_profile(btype, inst, projs, start_ballots, False)
     else:
         if bind == "unbound":
             bound = None
@@ -371,100 +473,121 @@ def impl(case):
             bound = Instance(projs, budget_limit=inst.budget_limit)
         else:
             bound = Instance([Project(p.name, p.cost + 1) for p in projs], budget_limit=pb.num(case["bind_budget"]))
-        listprof = pb.make_profile(btype, bound, projs, case["ballots"], False)
+        listprof = pb.make_profile(btype, bound, projs, start_ballots, False)
     prof = listprof.as_multiprofile() if case["multi"] else listprof
-    out = {}
-    if case["multi"]:
-        out["classes"] = [[_canon_ballot(btype, b), int(m)] for b, m in prof.items()]
-    else:
-        out["classes"] = [[_canon_ballot(btype, b), 1] for b in prof]
-    class_ballots = list(prof.keys()) if case["multi"] else list(prof)
-    nv = len(case["ballots"])
-    ex, fl, vec = {}, {}, {}
-    if "instance" in case["ask"]:
-        ex[1] = core.qj(an.sum_project_cost(inst))
-        if pb.F(case["budget"]) > 0:
-            ex[2] = core.qj(an.funding_scarcity(inst))
-        if n:
-            ex[3] = core.qj(an.avg_project_cost(inst))
-            fl[4] = core.qj(an.median_project_cost(inst))
-            if not case.get("big"):   # np.std cancels catastrophically on costs beyond 2**53: outside the 1e-9 claim
-                fl[5] = core.qj(an.std_dev_project_cost(inst))
-    if "profile" in case["ask"]:
-        ex[6] = core.qj(an.avg_ballot_length(inst, prof))
-        fl[7] = core.qj(an.median_ballot_length(inst, prof))
-        ex[8] = core.qj(an.avg_ballot_cost(inst, prof))
-        fl[9] = core.qj(an.median_ballot_cost(inst, prof))
-        if btype == "approval":
-            ex[10] = core.qj(an.avg_approval_score(inst, prof))
-            fl[11] = core.qj(an.median_approval_score(inst, prof))
-            vec[14] = [core.qj(prof.approval_score(p)) for p in projs]
-        if btype in ("cardinal", "cumulative"):
-            ex[12] = core.qj(an.avg_total_score(inst, prof))
-            fl[13] = core.qj(an.median_total_score(inst, prof))
-            vec[15] = [core.qj(prof.total_score(p)) for p in projs]
-    if "votes_count" in case["ask"]:
-        vc = votes_count_by_project(prof)
-        vec[16] = [core.qj(vc.get(p, 0)) for p in projs]
-    if "voter_flow" in case["ask"]:
-        vf = voter_flow_matrix(inst, prof)
-        vec[17] = [core.qj(vf[str(a)][str(b)]) for a in projs for b in projs]
-    out["exact"], out["float"], out["vec"] = ex, fl, vec
 
-    sq = []
-    for sqc in case["satq"]:
-        cls = Table_Sat if sqc["meas"] == "Table_Sat" else getattr(satmod, sqc["meas"])
-        alloc = [projs[j] for j in sqc["alloc"]]
-        voters = [cls(inst, refprof, b).sat(alloc) for b in refprof]          # the definition: the PASSED instance
-        classes = [cls(inst, prof, b).sat(alloc) for b in class_ballots]
-        r = {"voters": [core.qj(v) for v in voters], "classes": [core.qj(v) for v in classes]}
-        r["avg"] = core.qj(an.avg_satisfaction(inst, prof, alloc, cls))
-        if sqc["meas"] == "CC_Sat":
-            r["neh"] = core.qj(an.percent_non_empty_handed(inst, prof, alloc))
-        if nv:
-            # percent_positive_satisfaction takes no instance: it refers to the instance the profile is bound to
-            pv = percent_positive_satisfaction(prof, alloc, cls)
-            if bind == "same":
-                r["pos"] = core.qj(pv)
-            else:
-                r["pos2"] = {"pos": core.qj(pv),
-                             "voters": [core.qj(cls(prof.instance, listprof, b).sat(alloc)) for b in listprof],
-                             "classes": [core.qj(cls(prof.instance, prof, b).sat(alloc)) for b in class_ballots]}
-        r["gini"] = core.qj(an.gini_coefficient_of_satisfaction(inst, prof, alloc, cls))
-        r["gini_inv"] = core.qj(an.gini_coefficient_of_satisfaction(inst, prof, alloc, cls, invert=True))
-        hs = []
-        if nv:
-            fv = [_F(v) for v in voters]
-            for hq in sqc["hist"]:
-                if isinstance(hq, dict):
-                    k, mx, mtype, omit = hq["k"], hq["max"], hq.get("mtype", "auto"), hq.get("omit_k", False)
-                else:
-                    (k, mx), mtype, omit = hq, "auto", False
-                if mx[0] == "lit":
-                    m = pb.F(mx[1])
-                elif mx[0] == "max":
-                    m = max(fv) if max(fv) > 0 else Fraction(1)
-                else:
-                    s = fv[mx[1] % len(fv)]
-                    m = s * (k - 1) / mx[2] if s > 0 else Fraction(k - 1, mx[2])
-                if mtype == "float" and not _dyadic(m):
-                    mtype = "mpq"
-                if omit and k == 21:
-                    res = an.satisfaction_histogram(inst, prof, alloc, cls, typed(m, mtype))   # default num_bins
-                else:
-                    res = an.satisfaction_histogram(inst, prof, alloc, cls, typed(m, mtype), k)
-                hs.append([k, pb.qs(m), [core.qj(x) for x in res], mtype])
-        r["hist"] = hs
-        sq.append(r)
-    out["satq"] = sq
+    def compute(ballots_now):
+        """every statistic on the CURRENT state of the profile object; ballots_now = the voters it must stand for"""
+        refprof = pb.make_profile(btype, inst, projs, ballots_now, False)   # reference: fresh, bound to the passed instance
+        boundref = pb.make_profile(btype, prof.instance, projs, ballots_now, False)   # fresh, bound like the tested profile
+        out = {}
+        if case["multi"]:
+            out["classes"] = [[_canon_ballot(btype, b), int(m)] for b, m in prof.items()]
+        else:
+            out["classes"] = [[_canon_ballot(btype, b), 1] for b in prof]
+        class_ballots = list(prof.keys()) if case["multi"] else list(prof)
+        nv = len(ballots_now)
+        ex, fl, vec = {}, {}, {}
+        if "instance" in case["ask"]:
+            ex[1] = core.qj(an.sum_project_cost(inst))
+            if pb.F(case["budget"]) > 0:
+                ex[2] = core.qj(an.funding_scarcity(inst))
+            if n:
+                ex[3] = core.qj(an.avg_project_cost(inst))
+                fl[4] = core.qj(an.median_project_cost(inst))
+                if not case.get("big"):   # np.std cancels catastrophically on costs beyond 2**53: outside the 1e-9 claim
+                    fl[5] = core.qj(an.std_dev_project_cost(inst))
+        if "profile" in case["ask"]:
+            ex[6] = core.qj(an.avg_ballot_length(inst, prof))
+            fl[7] = core.qj(an.median_ballot_length(inst, prof))
+            ex[8] = core.qj(an.avg_ballot_cost(inst, prof))
+            fl[9] = core.qj(an.median_ballot_cost(inst, prof))
+            if btype == "approval":
+                ex[10] = core.qj(an.avg_approval_score(inst, prof))
+                fl[11] = core.qj(an.median_approval_score(inst, prof))
+                vec[14] = [core.qj(prof.approval_score(p)) for p in projs]
+            if btype in ("cardinal", "cumulative"):
+                ex[12] = core.qj(an.avg_total_score(inst, prof))
+                fl[13] = core.qj(an.median_total_score(inst, prof))
+                vec[15] = [core.qj(prof.total_score(p)) for p in projs]
+        if "votes_count" in case["ask"]:
+            vc = votes_count_by_project(prof)
+            vec[16] = [core.qj(vc.get(p, 0)) for p in projs]
+        if "voter_flow" in case["ask"]:
+            vf = voter_flow_matrix(inst, prof)
+            vec[17] = [core.qj(vf[str(a)][str(b)]) for a in projs for b in projs]
+        out["exact"], out["float"], out["vec"] = ex, fl, vec
 
-    if cats and nv:
-        alloc = [projs[j] for j in cats["alloc"]]
-        cF = [pb.F(c) for c in case["costs"]]
-        ok = all(sum((cF[r] for r, _ in _canon_case_ballot(btype, b)), Fraction(0)) > 0 for b in case["ballots"])
-        ok = ok and (not alloc or sum((cF[j] for j in cats["alloc"]), Fraction(0)) > 0)
-        if ok:
-            out["catprop"] = core.qj(an.category_proportionality(inst, prof, alloc))
+        sq = []
+        for sqc in case["satq"]:
+            cls = Table_Sat if sqc["meas"] == "Table_Sat" else getattr(satmod, sqc["meas"])
+            alloc = [projs[j] for j in sqc["alloc"]]
+            voters = [cls(inst, refprof, b).sat(alloc) for b in refprof]          # the definition: the PASSED instance
+            classes = [cls(inst, prof, b).sat(alloc) for b in class_ballots]
+            r = {"voters": [core.qj(v) for v in voters], "classes": [core.qj(v) for v in classes]}
+            r["avg"] = core.qj(an.avg_satisfaction(inst, prof, alloc, cls))
+            if sqc["meas"] == "CC_Sat" and btype == "approval":
+                r["neh"] = core.qj(an.percent_non_empty_handed(inst, prof, alloc))
+            if nv:
+                # percent_positive_satisfaction takes no instance: it refers to the instance the profile is bound to
+                pv = percent_positive_satisfaction(prof, alloc, cls)
+                if bind == "same":
+                    r["pos"] = core.qj(pv)
+                else:
+                    r["pos2"] = {"pos": core.qj(pv),
+                                 "voters": [core.qj(cls(prof.instance, boundref, b).sat(alloc)) for b in boundref],
+                                 "classes": [core.qj(cls(prof.instance, prof, b).sat(alloc)) for b in class_ballots]}
+            for gk, inv in (("gini", False), ("gini_inv", True)):
+                try:
+                    r[gk] = core.qj(an.gini_coefficient_of_satisfaction(inst, prof, alloc, cls, invert=inv))
+                except ValueError:
+                    r[gk] = "raised"            # by design when some satisfaction is negative
+            hs = []
+            if nv:
+                fv = [_F(v) for v in voters]
+                for hq in sqc["hist"]:
+                    if isinstance(hq, dict):
+                        k, mx, mtype, omit = hq["k"], hq["max"], hq.get("mtype", "auto"), hq.get("omit_k", False)
+                    else:
+                        (k, mx), mtype, omit = hq, "auto", False
+                    if mx[0] == "lit":
+                        m = pb.F(mx[1])
+                    elif mx[0] == "max":
+                        m = max(fv) if max(fv) > 0 else Fraction(1)
+                    else:
+                        s = fv[mx[1] % len(fv)]
+                        m = s * (k - 1) / mx[2] if s > 0 else Fraction(k - 1, mx[2])
+                    if any(s * (k - 1) / m <= -1 for s in fv):
+                        continue    # candidate defect (reported): ceil(...) <= -1 indexes the list from its end
+                    if mtype == "float" and not _dyadic(m):
+                        mtype = "mpq"
+                    if omit and k == 21:
+                        res = an.satisfaction_histogram(inst, prof, alloc, cls, typed(m, mtype))   # default num_bins
+                    else:
+                        res = an.satisfaction_histogram(inst, prof, alloc, cls, typed(m, mtype), k)
+                    hs.append([k, pb.qs(m), [core.qj(x) for x in res], mtype])
+            r["hist"] = hs
+            sq.append(r)
+        out["satq"] = sq
+
+        if cats and nv:
+            alloc = [projs[j] for j in cats["alloc"]]
+            cF = [pb.F(c) for c in case["costs"]]
+            ok = all(sum((cF[r] for r, _ in _canon_case_ballot(btype, b)), Fraction(0)) > 0 for b in ballots_now)
+            ok = ok and (not alloc or sum((cF[j] for j in cats["alloc"]), Fraction(0)) > 0)
+            if ok:
+                out["catprop"] = core.qj(an.category_proportionality(inst, prof, alloc))
+        return out
+
+    if hist_ops:
+        # history stream: look at every statistic, change the SAME profile object in place, look again with the same
+        # instance / profile / measure objects; the second answers must be those of the final profile
+        compute(start_ballots)
+        _apply_ops(btype, projs, prof, hist_ops["ops"], case["multi"])
+        sim = simulate(start_ballots, hist_ops["ops"], case["multi"])
+        if sorted(map(_keyb, sim)) != sorted(map(_keyb, case["ballots"])):
+            raise RuntimeError("harness: case['ballots'] is not the result of the history")
+    out = compute(case["ballots"])
     nt = case.get("numtype", "auto")
     mq = []
     for stream in case["meanq"]:
@@ -493,6 +616,11 @@ def _oq(x):
     return "None" if x is None else "(Some %s)" % q(x)
 
 
+def _oqr(x):
+    """answer that may be an exception"""
+    return "None" if x is None else "(Some None)" if x == "raised" else "(Some (Some %s))" % q(x)
+
+
 def coq_case(case, o):
     btype = case["btype"]
     ballots = lst([_bal(_canon_case_ballot(btype, b)) for b in case["ballots"]])
@@ -504,9 +632,9 @@ def coq_case(case, o):
     for sqc, r in zip(case["satq"], o["satq"]):
         hist = lst([pair(core.nat(h[0]), q(h[1]), core.qlist(h[2])) for h in r["hist"]])
         sqs.append("(mkSatq %s %s %s %s %s %s %s %s %s %s %s)" % (
-            natl(sqc["alloc"]), core.nat(MEAS_ID.get(sqc["meas"], 0)), boolc(sqc["meas"] not in FLOAT_MEAS),
+            natl(sqc["alloc"]), core.nat(MEAS_ID.get(sqc["meas"], 0) if btype == "approval" else 0), boolc(sqc["meas"] not in FLOAT_MEAS),
             core.qlist(r["voters"]), core.qlist(r["classes"]), _oq(r.get("avg")), _oq(r.get("neh")),
-            _oq(r.get("pos")), _oq(r.get("gini")), _oq(r.get("gini_inv")), hist))
+            _oq(r.get("pos")), _oqr(r.get("gini")), _oqr(r.get("gini_inv")), hist))
         if r.get("pos2"):
             p2 = r["pos2"]
             sqs.append("(mkSatq %s 0%%nat true %s %s None None %s None None [])" % (
@@ -549,6 +677,10 @@ def stats(cases, obs):
     d["max_satisfaction_type"] = {}
     d["cost_type"] = {}
     d["profile_binding"] = {}
+    d["history_cases"] = 0
+    d["history_ops"] = {}
+    d["sat_vectors_with_negative_value"] = 0
+    d["gini_raised_on_negative"] = 0
     d["instance_dependent_measure_on_foreign_binding"] = 0
     d["helper_arg_type"] = {}
     full = {}
@@ -557,6 +689,13 @@ def stats(cases, obs):
             continue
         d["cost_type"][c.get("ctype", "auto")] = d["cost_type"].get(c.get("ctype", "auto"), 0) + 1
         d["helper_arg_type"][c.get("numtype", "auto")] = d["helper_arg_type"].get(c.get("numtype", "auto"), 0) + 1
+        if c.get("history"):
+            d["history_cases"] += 1
+            for op in c["history"]["ops"]:
+                d["history_ops"][op[0]] = d["history_ops"].get(op[0], 0) + 1
+        for r in o["satq"]:
+            d["sat_vectors_with_negative_value"] += any(pb.F(v) < 0 for v in r["voters"])
+            d["gini_raised_on_negative"] += r.get("gini") == "raised"
         bd = c.get("bind", "same")
         d["profile_binding"][bd] = d["profile_binding"].get(bd, 0) + 1
         d["instance_dependent_measure_on_foreign_binding"] += sum(
@@ -647,6 +786,32 @@ def shrink(case):
                 c["satq"] = [dict(s) for s in case["satq"]]
                 c["satq"][sj]["hist"] = [sqc["hist"][hj]] if hj < len(sqc["hist"]) and len(sqc["hist"]) > 1 else []
                 yield c
+    if case.get("history"):
+        h = case["history"]
+        c = dict(case)
+        c["history"] = None          # the final profile built directly
+        yield c
+        for j in range(len(h["ops"])):
+            ops = h["ops"][:j] + h["ops"][j + 1:]
+            try:
+                fin = simulate(h["initial"], ops, case["multi"])
+            except Exception:
+                continue
+            c = dict(case)
+            c["history"] = {"initial": h["initial"], "ops": ops}
+            c["ballots"] = fin
+            yield c
+        for j in range(len(h["initial"])):
+            ini = h["initial"][:j] + h["initial"][j + 1:]
+            try:
+                fin = simulate(ini, h["ops"], case["multi"])
+            except Exception:
+                continue
+            c = dict(case)
+            c["history"] = {"initial": ini, "ops": h["ops"]}
+            c["ballots"] = fin
+            yield c
+        return
     # drop a voter
     for j in range(nv):
         c = dict(case)
